@@ -158,12 +158,23 @@ Alts(nt) ==
     \* ---------------------------------------------------------- here-document focus (C08)
     [] nt.n = "hd0" -> [i \in 1..Len(HereDocs) |-> [HereAlt(HereDocs[i], "") EXCEPT !.c = 0]]
                        \o << [HereAlt(HereDocs[5], "4") EXCEPT !.c = 0] >>
-    [] nt.n = "hdprog" ->   \* commands carrying 1-3 here-documents at every kind of redirection site
-         LET H    == NT("hd0", 1, FALSE, FALSE, FALSE, "")
+    [] nt.n = "hd1" -> << [HereAlt(HereDocs[1], "") EXCEPT !.c = 0], [HereAlt(HereDocs[Len(HereDocs)], "") EXCEPT !.c = 0] >>
+    [] nt.n \in {"hdprog", "hdlay"} ->   \* commands carrying 1-3 here-documents at every kind of redirection site
+         \* (hdlay: the same sites with two pool entries only -- for the layout and stream checks)
+         LET H    == NT(IF nt.n = "hdlay" THEN "hd1" ELSE "hd0", 1, FALSE, FALSE, FALSE, "")
              Cat  == <<M("c["), M("simple["), T("cat")>> \o WLit("cat") \o <<M("]simple")>>
              CatA == <<M("c["), M("simple["), TA("cat")>> \o WLit("cat") \o <<M("]simple")>>
              Cmd(hs) == <<M("ao["), M("pl[")>> \o Cat \o hs \o <<M("]c"), M("]pl"), M("]ao")>>
              Simple  == <<M("ao["), M("pl["), M("c["), M("simple["), T("a")>> \o WLit("a") \o <<M("]simple"), M("]c"), M("]pl")>>
+             Pa      == <<M("pl["), M("c["), M("simple["), T("a")>> \o WLit("a") \o <<M("]simple"), M("]c"), M("]pl")>>
+             Hd1     == <<M("ln["), M("ao["), M("pl[")>> \o Cat \o <<H, M("]c"), M("]pl"), T(";"), M("sep:;"), M("]ao")>>     \* cat H ;
+             S0      == Simple \o <<M("]ao")>>
+             Ss      == Simple \o <<TS(";"), M("sep:;"), M("]ao")>>
+             LnS     == <<M("ln[")>> \o Ss \o <<M("]ln")>>
+             Ln0nl   == <<M("ln[")>> \o S0 \o <<M("]ln"), NL>>
+             Wr(b)   == A(1, Hd1 \o <<M("ao["), M("pl["), M("c[")>> \o b \o <<M("]c"), M("]pl"), M("]ao"), M("]ln"), NLF>>)
+             Item(n1, n2) == <<M("item["), M("pats["), T("p*")>> \o WLit("p*") \o <<M("]pats"), TL(")")>> \o n1 \o <<M("ln[")>> \o S0
+                             \o <<M("]ln"), TL(";;")>> \o n2 \o <<M("op:;;"), M("]item")>>
          IN
          << A(0, <<M("ln[")>> \o Cmd(<<H>>) \o <<M("]ln"), NLF>>),
             A(1, <<M("ln[")>> \o Cmd(<<H, H>>) \o <<M("]ln"), NLF>>),
@@ -194,6 +205,27 @@ Alts(nt) ==
             A(1, <<M("ln["), M("ao["), M("pl[")>> \o Cat \o <<H, M("]c"), TL("|"), M("op:|"), M("c["), TL("until"), M("until["), M("cond["), M("ln["), M("ao["), M("pl["), M("c["), TL("{"), NLB, M("grp["), M("ln[")>> \o Simple \o <<M("]ao"), M("]ln"), NL,
                    T("}"), M("]grp"), M("]c"), M("]pl"), M("]ao"), M("]ln"), NL, M("]cond"),
                    TL("do"), NLB, M("do["), M("ln[")>> \o Simple \o <<M("]ao"), M("]ln"), NL, M("]do"), T("done"), M("]until"), M("]c"), M("]pl"), M("]ao"), M("]ln"), NLF>>),
+            \* a here-document pending on the line while a newline is consumed at every other kind of site (the body follows
+            \* that newline): after { ( if then else do, after the word list / the name of a for loop, around the items of
+            \* a case, after f(), after && , as the separator inside a condition
+            Wr(<<TL("{"), NLB, M("grp[")>> \o LnS \o <<T("}"), M("]grp")>>),
+            Wr(<<TL("("), NLB, M("sub["), M("ln[")>> \o S0 \o <<M("]ln"), T(")"), M("]sub")>>),
+            Wr(<<TL("if"), NLB, M("if["), M("cond[")>> \o LnS \o <<M("]cond"), TL("then"), M("then[")>> \o LnS \o <<M("]then"), T("fi"), M("]if")>>),
+            Wr(<<TL("if"), M("if["), M("cond[")>> \o LnS \o <<M("]cond"), TL("then"), NLB, M("then[")>> \o LnS \o <<M("]then"), T("fi"), M("]if")>>),
+            Wr(<<TL("if"), M("if["), M("cond[")>> \o LnS \o <<M("]cond"), TL("then"), M("then[")>> \o LnS \o <<M("]then"), TL("else"), NLB, M("else[")>> \o LnS \o <<M("]else"), T("fi"), M("]if")>>),
+            Wr(<<TL("if"), M("if["), M("cond[")>> \o Ln0nl \o <<M("]cond"), TL("then"), M("then[")>> \o LnS \o <<M("]then"), T("fi"), M("]if")>>),
+            Wr(<<TL("while"), M("while["), M("cond[")>> \o LnS \o <<M("]cond"), TL("do"), NLB, M("do[")>> \o LnS \o <<M("]do"), T("done"), M("]while")>>),
+            Wr(<<TL("until"), M("until["), M("cond[")>> \o Ln0nl \o <<M("]cond"), TL("do"), M("do[")>> \o LnS \o <<M("]do"), T("done"), M("]until")>>),
+            Wr(<<T("for"), M("for["), T("x"), M("name:x"), T("in"), M("in["), T("a")>> \o WLit("a") \o <<M("]in"), NLB, TL("do"), M("do[")>> \o LnS \o <<M("]do"), T("done"), M("]for")>>),
+            Wr(<<T("for"), M("for["), T("x"), M("name:x"), NLB, TL("do"), M("do[")>> \o LnS \o <<M("]do"), T("done"), M("]for")>>),
+            Wr(<<T("for"), M("for["), T("x"), M("name:x"), NLB, T("in"), M("in["), T("a")>> \o WLit("a") \o <<M("]in"), TS(";"), M("forsemi"), TL("do"), M("do[")>> \o LnS \o <<M("]do"), T("done"), M("]for")>>),
+            Wr(<<T("case"), M("case["), T("a")>> \o WLit("a") \o <<TL("in"), NLB>> \o Item(<<>>, <<>>) \o <<T("esac"), M("]case")>>),
+            Wr(<<T("case"), M("case["), T("a")>> \o WLit("a") \o <<TL("in")>> \o Item(<<NLB>>, <<>>) \o <<T("esac"), M("]case")>>),
+            Wr(<<T("case"), M("case["), T("a")>> \o WLit("a") \o <<TL("in")>> \o Item(<<>>, <<NLB>>) \o <<T("esac"), M("]case")>>),
+            Wr(<<T("case"), M("case["), T("a")>> \o WLit("a") \o <<NLB, TL("in")>> \o Item(<<>>, <<>>) \o <<T("esac"), M("]case")>>),
+            A(1, Hd1 \o <<M("ao["), M("pl["), M("c["), M("fn["), T("f"), M("name:f"), T("("), TL(")"), NLB, M("c["), TL("{"), M("grp[")>> \o LnS
+                   \o <<T("}"), M("]grp"), M("]c"), M("]fn"), M("]c"), M("]pl"), M("]ao"), M("]ln"), NLF>>),
+            A(1, <<M("ln["), M("ao["), M("pl[")>> \o Cat \o <<H, M("]c"), M("]pl"), TL("&&"), M("op:&&"), NLB>> \o Pa \o <<M("]ao"), M("]ln"), NLF>>),
             \* inside a command substitution, followed by one outside
             A(1, <<M("ln["), M("ao["), M("pl["), M("c["), M("simple["), T("a")>> \o WLit("a") \o <<M("w["), T("$("), M("cs$["), M("ln["), M("ao["), M("pl[")>> \o CatA
                    \o <<H, M("]c"), M("]pl"), M("]ao"), M("]ln"), NL, T(")"), M("]cs"), M("]w"), M("]simple"), H, M("]c"), M("]pl"), M("]ao"), M("]ln"), NLF>>) >>
